@@ -739,3 +739,75 @@ func constBool(v ssa.Value) (bool, bool) {
 	}
 	return false, false
 }
+
+// guardsOfDeep is guardsOf plus the branch outcomes implied by a dominating
+// call of a module function that returns a bool: when the site is reached only
+// if h(...) returned P, every guard that dominates all the returns of h which
+// may yield P holds at the site too (a refusal prelude extracted into a private
+// predicate keeps discharging the "must be dominated by" obligations). The
+// implied guards live in another function: they are only meaningful to
+// predicates that match by field / callee, not by value identity.
+func guardsOfDeep(blk *ssa.BasicBlock) []Guard {
+	out := guardsOf(blk)
+	seen := map[*ssa.Function]bool{}
+	var expand func(gs []Guard, depth int) []Guard
+	expand = func(gs []Guard, depth int) []Guard {
+		var add []Guard
+		if depth > 2 {
+			return nil
+		}
+		for _, g := range gs {
+			call, ok := g.Cond.(*ssa.Call)
+			if !ok {
+				continue
+			}
+			h := call.Call.StaticCallee()
+			if h == nil || len(h.Blocks) == 0 || seen[h] || h.Pkg == nil || !inModule(h.Pkg.Pkg) {
+				continue
+			}
+			// a method predicate must be asked of the caller's own receiver
+			if h.Signature.Recv() != nil {
+				pf := call.Parent()
+				if len(call.Call.Args) == 0 || len(pf.Params) == 0 || pf.Signature.Recv() == nil || call.Call.Args[0] != ssa.Value(pf.Params[0]) {
+					continue
+				}
+			}
+			res := h.Signature.Results()
+			if res.Len() != 1 {
+				continue
+			}
+			if bt, ok := res.At(0).Type().Underlying().(*types.Basic); !ok || bt.Kind() != types.Bool {
+				continue
+			}
+			seen[h] = true
+			// returns that may yield g.Pol
+			var common []Guard
+			first := true
+			for _, r := range returnsOf(h) {
+				v := retVals(r)[0]
+				if k, isK := constBool(v); isK && k != g.Pol {
+					continue
+				}
+				rg := guardsOf(r.Block())
+				if first {
+					common, first = rg, false
+					continue
+				}
+				var keep []Guard
+				for _, a := range common {
+					for _, b := range rg {
+						if a.Cond == b.Cond && a.Pol == b.Pol {
+							keep = append(keep, a)
+							break
+						}
+					}
+				}
+				common = keep
+			}
+			add = append(add, common...)
+			add = append(add, expand(common, depth+1)...)
+		}
+		return add
+	}
+	return append(out, expand(out, 0)...)
+}
